@@ -351,8 +351,18 @@ def pool_packets(rng, n):
     pool = []
     base = None
     for i in range(n):
-        k = rng.below(8)
-        if k == 0:
+        k = rng.below(10)
+        if k >= 8 and base is not None:
+            # differs from the base packet in exactly ONE header field (each comparison of operator== on its own)
+            q = dict(base)
+            f = rng.choice(['ver', 'dev', 'stream', 'seq', 'ts', 'ifid', 'vendor', 'flags', 'segtype'])
+            if f == 'segtype': q['segtype'] = rng.choice([x for x in (0, 4, 8, 12) if x != base['segtype']])
+            elif f == 'ts': q['ts'] = base['ts'] ^ (1 << rng.below(64))
+            elif f == 'ifid': q['ifid'] = base['ifid'] ^ (1 << rng.below(32))
+            elif f in ('dev', 'seq', 'vendor'): q[f] = base[f] ^ (1 << rng.below(16))
+            else: q[f] = base[f] ^ (1 << rng.below(8))
+            pool.append(q)
+        elif k == 0:
             pool.append(None)                      # empty packet (no payload)
         elif k == 1:
             p = D_packet(rng, 0)                   # zero-length payload
@@ -443,7 +453,7 @@ def gen_c14(rng, cid, npool=6, nops=14):
             if state[a] is None or state[a].get('nopl'):
                 continue
             mt, raw = rng.choice([(0, 0), (0, 0), (0, 7), (1, 0), (3, 1), (1, 1), (255, 255), (2, 9)])
-            lines += ['XTYPE %d %d %d' % (a, mt, raw), 'XSHOW %d' % a]
+            lines += ['XTYPE %d %d %d %d' % (a, mt, raw, rng.below(2)), 'XSHOW %d' % a]
             q = dict(state[a]); q['mt'] = mt; q['pt'] = raw
             state[a] = q; exp.append(('show', q))
         elif op == 'XMUTCOPY':
